@@ -538,6 +538,17 @@ impl SlabRouter {
     ///
     /// Returns an error if snapshot save or WAL operations fail.
     pub fn checkpoint(&self, snapshot_path: &Path) -> Result<u64, SlabRouterError> {
+        // Make the log on disk at least as new as the snapshot about to be written.
+        // Under batched/manual sync the snapshot would otherwise contain writes whose
+        // log records are still buffered; a crash before the checkpoint marker would
+        // then replay the older on-disk log over the newer snapshot and mix states.
+        if let Some(wal_mutex) = &self.wal {
+            wal_mutex
+                .lock()
+                .sync()
+                .map_err(|e| SlabRouterError::WalError(format!("Failed to sync WAL: {e}")))?;
+        }
+
         // Save snapshot first
         self.save_to_file(snapshot_path)
             .map_err(|e| SlabRouterError::WalError(format!("Failed to save snapshot: {e}")))?;
